@@ -45,7 +45,7 @@ def _native_sources():
 def source_hash():
     h = hashlib.sha1()
     for f in _native_sources():
-        h.update(f.encode())
+        h.update(os.path.relpath(f, REPO).encode())  # identical sources share one build
         with open(f, "rb") as fh:
             h.update(fh.read())
     h.update(b"v3")
@@ -95,14 +95,17 @@ def ensure_built(verbose=False):
             print("building native modules %s into %s" % (sorted(todo), outdir), flush=True)
         with ThreadPoolExecutor(4) as ex:
             list(ex.map(lambda kv: _compile(kv[0], kv[1], outdir), todo.items()))
-    # prune old builds (keep the 3 most recent) -- disk is limited
+    # prune old builds (keep the 12 most recent, never one younger than 6 h: concurrent
+    # runs against scratch worktrees may still be compiling into theirs) -- disk is limited
     try:
+        import time
+
         ds = sorted(
             (d for d in os.listdir(BUILD_ROOT) if os.path.isdir(os.path.join(BUILD_ROOT, d)) and len(d) == 16),
             key=lambda d: os.path.getmtime(os.path.join(BUILD_ROOT, d)),
         )
-        for d in ds[:-3]:
-            if d != h:
+        for d in ds[:-12]:
+            if d != h and time.time() - os.path.getmtime(os.path.join(BUILD_ROOT, d)) > 6 * 3600:
                 import shutil
 
                 shutil.rmtree(os.path.join(BUILD_ROOT, d), ignore_errors=True)
